@@ -29,6 +29,10 @@ package orderbuffer
 //@   ensures sortedBuf(rb)
 //@   ensures len(rb.Buffer) <= rb.max && rb.max == old(rb.max)
 //@   ensures len(rb.Buffer) == old(len(rb.Buffer)) || len(rb.Buffer) == min(old(len(rb.Buffer)) + 1, rb.max)
+// Either nothing changed (an exact repeat), or the item went in at its sorted position p: everything
+// below p stays, everything from p on moves up by one, and only what no longer fits (the
+// highest rounds) falls off the end.
+//@   ensures[lowest-kept-highest-dropped] (len(rb.Buffer) == old(len(rb.Buffer)) && (forall i in 0..len(rb.Buffer) :: rb.Buffer[i] == old(rb.Buffer[i]))) || (exists p in 0..old(len(rb.Buffer))+1 witness index :: (forall i in 0..min(p, len(rb.Buffer)) :: rb.Buffer[i] == old(rb.Buffer[i])) && (p < len(rb.Buffer) ==> rb.Buffer[p].Round == round && rb.Buffer[p].Data == data) && (forall i in p+1..len(rb.Buffer) :: rb.Buffer[i] == old(rb.Buffer[i-1])))
 //@   lock-balanced rb.mu
 
 //@ func (*OrderBuffer).First
